@@ -69,11 +69,11 @@ def specs(tier):
     out = [Spec("h3_abort_releases_workers", build_h3(3), cfg=h3_cfg(3), unwind=4, timeout=1800,
                 desc="real next() and run_commit_loop with the abort flag set, arbitrary cursor state", bounds={"n": 3})]
     for s in c17.specs(tier):
-        if s.name in ("h1_slot_spurious", "h2_two_conditions", "h3_commit_predicate_cancel", "h6_finality_announces_n3"):
+        if s.name in ("h1_slot_spurious", "h2_two_conditions", "h3_commit_predicate_cancel", "h6_finality_announces_n3", "h7_validate_notifies_parked_finality"):
             s.name = "h1_" + s.name
             out.append(s)
     for s in c16.specs(tier):
-        if s.name in ("completion_n3", "step_S_n3", "step_B_n3", "step_K_n3", "step_N_n3", "step_X_n3", "step_C_n3", "step_KC_n3", "step_BC_n3"):
+        if s.name in ("completion_n3", "step_S_n3", "step_B_n3", "step_K_n3", "refine_execute_task_n3", "step_N_n3", "step_X_n3", "step_C_n3", "step_KC_n3", "step_BC_n3"):
             s.name = "h2_dep_" + s.name
             out.append(s)
     for s in c04.specs(tier):
